@@ -22,11 +22,9 @@ const rule = "valid paths of the C02 generator (real extender, real combinator, 
 func main() {
 	netgen.Main("C04", "Prov.check04", rule, func(x *netgen.Ctx) {
 		run := x.Run
-		nWorlds := run.Count(6, 60)
+		// thorough: every bit of every protected field at every position (~500 cases per path)
+		nWorlds := run.Count(12, 25)
 		perWorld := 4
-		if run.Tier == "thorough" {
-			perWorld = 12
-		}
 		x.EachPath(nWorlds, perWorld, func(i int, w *netgen.World, p *netgen.Path, r *vgen.Rand) {
 			_, expired, _ := p.ExpiryMargin(x.Now)
 			if expired {
